@@ -524,3 +524,33 @@ package keeper
 //@   ensures queued:   err == nil ==> active == set(old(active), np.EndHeight, np.Id, np.Id)
 //@   ensures pools_frame: err == nil ==> (forall p:Str :: p != np.Id ==> has(pools, p) == old(has(pools, p)) && POOL(p) == old(POOL(p)))
 //@ end
+
+// CreatePool: the creation fee is deducted, exactly the total reward is escrowed, and the new pool starts with the
+// module invariants established: budgets cover the scheduled blocks, one queue entry at the end height, escrow identity.
+//@ func Keeper.CreatePool
+//@   property C05, C06, C13
+//@   returns np, err
+//@   requires paramsStored
+//@   requires height >= 0 && startHeight >= height && ufb("denom_valid", lptDenom)
+//@   requires len(totalReward) > 0 && creator != MOD && creator != macc(k.feeCollectorName) && k.feeCollectorName != "farm"
+//@   requires forall d:Str :: amt(totalReward, d) >= 0
+//@   requires forall d:Str :: amt(totalReward, d) > 0 ==> amt(rewardPerBlock, d) > 0 && ufb("denom_valid", d) && amt(totalReward, d) div amt(rewardPerBlock, d) <= 9223372036854775807
+//@   let p = get(prm)
+//@   modifies bal, supply, ruleF, pools, active, poolSeq
+//@   ensures ledger: err == nil ==> (forall d:Str :: bal(MOD, d) == old(bal(MOD, d)) + amt(totalReward, d)
+//@                       && bal(creator, d) == old(bal(creator, d)) - amt(totalReward, d) - ite(d == p.PoolCreationFee.Denom, p.PoolCreationFee.Amount, 0))
+//@   ensures rules:  err == nil ==> (forall d:Str :: amt(totalReward, d) > 0 ==> has(ruleF, np.Id, d) && RULE(np.Id, d) == newRule(d, amt(totalReward, d), amt(rewardPerBlock, d)))
+//@   ensures record: err == nil ==> has(pools, np.Id) && POOL(np.Id) == with(np, "Rules", zero(np.Rules)) && np.StartHeight == startHeight && np.Creator == bech(creator)
+//@                       && np.TotalLptLocked == coin(lptDenom, 0) && np.LastHeightDistrRewards == 0 && np.EndHeight >= startHeight
+// budgets cover the scheduled blocks (the part of endInv that concerns the rules just created)
+//@   ensures covered: err == nil ==> (forall d:Str :: amt(totalReward, d) > 0 ==> RULE(np.Id, d).RemainingReward >= RULE(np.Id, d).RewardPerBlock * (np.EndHeight - max(np.LastHeightDistrRewards, np.StartHeight)))
+// exactly one queue entry, at the end height
+//@   ensures queued:  err == nil ==> active == set(old(active), np.EndHeight, np.Id, np.Id)
+//@   ensures pools_frame: err == nil ==> (forall q:Str :: q != np.Id ==> has(pools, q) == old(has(pools, q)) && POOL(q) == old(POOL(q)))
+//@   ensures queue_inv: err == nil && freshId(np.Id) && old(activeInv) ==> activeInv
+//@   by queue_inv: ens:queued, ens:record, ens:pools_frame, req
+// escrow == staked + unreleased budgets keeps holding with the new pool
+//@   lemma @return stakedUpd(old(pools), np.Id, POOL(np.Id)) if err == nil
+//@   lemma @return remDiff(old(ruleF), ruleF, np.Id) if err == nil
+//@   ensures escrow:  err == nil && freshId(np.Id) && old(escrowInv) ==> escrowInv
+//@ end
